@@ -29,7 +29,7 @@ ASSUMPTIONS = ["nvmon.ref exact reference for vertex positions (uv within 1e-12 
 FLOORS = {'quick': {'topology': 150, 'vertex-on-surface': 1500, 'quads': 100, 'trim-cells': 1000, 'obj': 60, 'off': 60, 'stl-ascii': 60,
                     'stl-binary': 60, 'container': 30},
           'thorough': {'topology': 1500, 'vertex-on-surface': 15000, 'trim-cells': 10000}}
-MANDATORY_TAGS = ['spacing1', 'spacing>=2', 'spacing>=3', 'rational', 'trim:freeform', 'trim:spline', 'trim:reversed', 'trim:clockwise', 'trim:non-unit-domain', 'trim:added-after-tessellation', 'trim:setter-replaces', 'tessellator:reinstalled-after-edit', 'container', 'container:tessellator-replaced', 'quad:as-surface-tessellator',
+MANDATORY_TAGS = ['spacing1', 'spacing>=2', 'spacing>=3', 'spacing:not-dividing', 'rational', 'trim:freeform', 'trim:spline', 'trim:reversed', 'trim:clockwise', 'trim:non-unit-domain', 'trim:added-after-tessellation', 'trim:setter-replaces', 'tessellator:reinstalled-after-edit', 'container', 'container:tessellator-replaced', 'quad:as-surface-tessellator',
                   'quad', 'non-unit-domain', 'export:file']
 TECHNIQUE = ("runtime monitoring: structural + exact-geometric oracle over every tessellation the workload produces (ids, indices, "
              "orientation, exact area cover, edge incidence, Euler characteristic, vertex = surface(uv)), cell-classification oracle "
@@ -58,6 +58,9 @@ def gen(rng, tier, shard, nshards):
             sp = rng.choice([1, 1, 2, 2, 3, 4, 5])
             nu = 1 + sp * rng.randint(1, max(1, (mx - 1) // sp))
             nv = 1 + sp * rng.randint(1, max(1, (mx - 1) // sp))
+            if rng.random() < 0.4:
+                # any sample sizes, not only those where the spacing divides size - 1: the coarser mesh still covers the whole surface
+                nu, nv = rng.randint(2, mx), rng.randint(2, mx)
             if nu != nv or mx < 4:
                 break
         yield {'kind': 'plain', 'sd': sd, 'nu': nu, 'nv': nv, 'spacing': sp, 'seed': rng.randrange(1 << 30)}
@@ -345,7 +348,10 @@ def check_plain(case, ctx):
         return
     o.tessellate(vertex_spacing=sp)
     V, Fc = o.vertices, o.faces
-    eu, ev = len(range(0, nu, sp)), len(range(0, nv, sp))
+    # every sp-th sample per direction, and always the last one
+    eu, ev = len(range(0, nu - 1, sp)) + 1, len(range(0, nv - 1, sp)) + 1
+    if (nu - 1) % sp or (nv - 1) % sp:
+        ctx.tag('spacing:not-dividing')
     if not ctx.check(len(V) == eu * ev and len(Fc) == 2 * (eu - 1) * (ev - 1), 'mesh/counts',
                      'sample sizes (%d,%d), spacing %d: %d vertices / %d faces, expected %d / %d' %
                      (nu, nv, sp, len(V), len(Fc), eu * ev, 2 * (eu - 1) * (ev - 1)), what='topology'):
